@@ -201,6 +201,16 @@ def oracle_misc(ck, rng):
         if not np.array_equal(np.asarray(mdl.get_missing_wedge_mask(q)) > 0, ms[0]):
             ck.violation(what=f"tilt range given through {nm_} yields a different mask than the constructor's tuple form", inp={"tilt": [-50, 40], "entry": nm_},
                          key={"site": "entry-points", "which": nm_}, oracle="nowedge_union_entry_points")
+    # apply_mask(rotator, spectrum) is the spectrum times create_mask(rotator, shape), for every model kind
+    spec_img = np.fft.fftn(rng.normal(size=shape))
+    for nm_, mdl_ in (("single-y", single_axis((-50, 40))), ("single-x", single_axis((-35, 60), "x")), ("dual", dual_axis((-50, 40), (-30, 60))), ("none", no_wedge())):
+        for rot_ in (rot, Rotation.random(random_state=11), Rotation.identity()):
+            ck.oracle_count("apply_mask_is_product", 1, 1)
+            got_ = np.asarray(mdl_.apply_mask(rot_, spec_img))
+            want_ = spec_img * np.asarray(mdl_.create_mask(rot_, shape))
+            if got_.shape != want_.shape or not np.allclose(got_, want_):
+                ck.violation(what=f"{nm_}.apply_mask(rotator, img) differs from img * create_mask(rotator, img.shape) in {int((~np.isclose(got_, want_)).sum())} bins",
+                             inp={"model": nm_, "rotvec": rot_.as_rotvec().tolist()}, key={"site": "apply_mask"}, oracle="apply_mask_is_product")
     # several models with different tilt specifications, same box, same orientation, asked in turn: each keeps its own mask
     from acryo.alignment import NCCAlignment
     specs = [("y(-50,40)", single_axis((-50, 40))), ("y(-20,20)", single_axis((-20, 20))), ("x(-50,40)", single_axis((-50, 40), "x")),
